@@ -311,7 +311,7 @@ class Engine:
             "process, either sequentially or submitted to the real Parallel under fake multiprocessing where the seeded "
             "scheduler decides which jobs share a worker and in which order; jobs are drawn from a fixed table: the "
             "shipped (before,after) corpus in both directions, the same with compiled ACL objects shared between jobs, "
-            "and synthetic rulebooks whose logic functions write to their rule/diff arguments. Every result is compared "
+            "and synthetic rulebooks whose logic functions write to their rule/diff arguments. Every result (commands, diff, ordered config, digest of the serialised patch tree and of the compiled rulebook) is compared "
             "with the result of the same job in a pristine fork. Non-trivial = history of >=3 jobs with >=2 distinct jobs. "
             "Distinct = distinct SHA-256 of the executed job-index sequence.")
     components_real = ["annet.api._diff_and_patch (make_diff, make_pre, make_patch, Orderer)", "annet.patching.apply_acl / "
